@@ -395,3 +395,69 @@ def rule_exocyclic_double(ck, repo, R):
               f'thiele marks a ring atom as double-bonded outside the ring under `{" and ".join(sorted(cs))}`; required `{" and ".join(sorted(want))}` (bond-level test)',
               file=f.file, line=asg[0].lineno, func=f.qualname, construct=src(asg[0])[:160])
     ck.floor(R, 1)
+
+
+def rule_hybridization_table(ck, repo, R):
+    """the hybridisation label of calc_labels, decided by abstract execution of its per-bond ladder over every sequence of up to three bond orders"""
+    from itertools import product
+    from .r_readers import _tv, _Unk
+    ck.rule(R, 'calc_labels derives the hybridisation mark from the bond orders of the atom: aromatic (4) if any aromatic bond, else sp (3) with a triple bond or two '
+               'double bonds, sp2 (2) with one double bond, sp3 (1) otherwise; coordinate bonds (8) do not count. Decided by executing the per-bond statements '
+               'abstractly for every sequence of up to three orders from {1, 2, 3, 4, 8} (155 sequences), so any re-nesting of the ladder is accepted')
+    f = repo.func('chython.containers.molecule:MoleculeContainer.calc_labels')
+    ck.require(f is not None, 'calc_labels not found')
+    outer = [l for l in ast.walk(f.node) if isinstance(l, ast.For) and 'self._bonds.items()' in src(l.iter)]
+    ck.require(len(outer) == 1, 'calc_labels: outer loop over the adjacency not found')
+    inner = [l for l in outer[0].body if isinstance(l, ast.For)]
+    ck.require(len(inner) == 1 and isinstance(inner[0].target, ast.Tuple) and len(inner[0].target.elts) == 2, 'calc_labels: inner loop over the bonds of the atom not found')
+    bvar = src(inner[0].target.elts[1])
+    init = [s for s in outer[0].body if isinstance(s, ast.Assign) and src(s.targets[0]) == 'hybridization' and isinstance(s.value, ast.Constant)]
+    ck.require(len(init) == 1, 'calc_labels: initial hybridization not found')
+
+    class _Cont(Exception):
+        pass
+
+    def touches(st):
+        return any(isinstance(n, ast.Name) and n.id == 'hybridization' and isinstance(n.ctx, ast.Store) for n in ast.walk(st)) or \
+            any(isinstance(n, ast.Continue) for n in ast.walk(st))
+
+    def run(stmts, env):
+        for st in stmts:
+            if isinstance(st, ast.If):
+                try:
+                    t = _tv(st.test, env)
+                except _Unk:
+                    if touches(st):
+                        raise
+                    continue
+                run(st.body if t else st.orelse, env)
+            elif isinstance(st, ast.Assign) and src(st.targets[0]) == 'hybridization':
+                if not isinstance(st.value, ast.Constant):
+                    raise _Unk(src(st))
+                env['hybridization'] = st.value.value
+            elif isinstance(st, ast.Continue):
+                raise _Cont()
+            elif touches(st):
+                raise _Unk(src(st)[:60])
+    n = 0
+    for ln in range(0, 4):
+        for seq in product((1, 2, 3, 4, 8), repeat=ln):
+            env = {'hybridization': init[0].value.value}
+            try:
+                for o in seq:
+                    env[bvar] = o
+                    try:
+                        run(inner[0].body, env)
+                    except _Cont:
+                        pass
+            except _Unk as e:
+                raise AnalysisError(f'calc_labels: hybridisation ladder not understood for bond orders {seq}: {e}')
+            real = [o for o in seq if o != 8]
+            want = 4 if 4 in real else 3 if 3 in real or real.count(2) >= 2 else 2 if 2 in real else 1
+            n += 1
+            if env['hybridization'] != want:
+                ck.bad(R, f'orders={seq}', f'calc_labels labels an atom with bond orders {seq} as hybridisation {env["hybridization"]}; expected {want} '
+                                           f'(1 sp3, 2 sp2, 3 sp, 4 aromatic): queries with the z primitive / hybridization constraint and the matcher bits use this label',
+                       file=f.file, line=inner[0].lineno, func=f.qualname)
+    ck.ok(R, 'sequences', f'{n} bond-order sequences give the documented label')
+    ck.count(f'{R}: sequences', n)
